@@ -14,6 +14,9 @@ def run(tier):
     cases = os.path.join(d, "cases.ndjson")
     vf.run_harness(binpath, ["clip", "gen", "--seed", vf.seed(), "--tier", tier], stdout_path=cases)
     vf.exec_and_validate(chk, binpath, "clip", "TV_Clip", cases, jvms=12, what="clip call")
+    if tier == "quick":
+        # also in a plain release build (no debug assertions)
+        vf.exec_and_validate(chk, vf.build_harness("plain"), "clip", "TV_Clip", cases, jvms=12, what="clip call (plain release build)")
     chk.cov["distinct_nontrivial"] = chk.cov["traces_validated_against_impl"]
     chk.cov["rule"] = ("seeded random lattice clip-space triangles (coordinates n/4, |n| <= 16, w positive, negative or "
                        "mixed, vertices inside, outside and exactly on planes) with two-component attributes, clipped "
